@@ -527,3 +527,47 @@ package raft
 //@   flags inline lockheld
 //@ func Raft.encodeConfiguration
 //@   flags inline lockheld
+
+// ===========================================================================================
+// Client API: submissions and membership changes (C03, C09, C18)
+// ===========================================================================================
+
+//@ spec pendingSpec(r) = r.committedConfiguration == nil || r.committedConfiguration.Index != r.configuration.Index
+//@ spec sameMaps(a, b) = (forall k string :: (k in a.Members) == (k in b.Members)) && (forall k string :: a.Members[k] == b.Members[k]) && (forall k string :: (k in a.IsVoter) == (k in b.IsVoter)) && (forall k string :: a.IsVoter[k] == b.IsVoter[k])
+
+//@ func newFuture
+//@   flags inline
+
+//@ func Configuration.Clone
+//@   requires c != nil
+//@   ensures [deep] result.Index == c.Index && result.Members != nil && result.IsVoter != nil && fresh(result.Members) && fresh(result.IsVoter) && result.Members != result.IsVoter
+//@   ensures [members] forall k string :: (k in result.Members) == (k in c.Members) && result.Members[k] == c.Members[k]
+//@   ensures [voters] forall k string :: (k in c.Members ==> (k in result.IsVoter) && result.IsVoter[k] == c.IsVoter[k]) && (!(k in c.Members) ==> !(k in result.IsVoter))
+//@   loop range c.Members invariant [members] forall k string :: (k in configuration.Members) == (k in visited) && (k in visited ==> configuration.Members[k] == c.Members[k])
+//@   loop range c.Members invariant [voters] forall k string :: (k in configuration.IsVoter) == (k in visited) && (k in visited ==> configuration.IsVoter[k] == c.IsVoter[k])
+//@   loop range c.Members invariant [fresh] configuration.Members != configuration.IsVoter && configuration.Members != c.Members && configuration.IsVoter != c.Members && configuration.Members != c.IsVoter && configuration.IsVoter != c.IsVoter && configuration.Index == c.Index
+
+//@ func Raft.appendConfiguration
+//@   flags lockheld
+//@   requires [pre-nonnil] configuration != nil && r.log != nil && r.transport != nil && r.logger != nil
+//@   ensures [entry] Llast == old(Llast) + 1 && configuration.Index == Llast && Lterm[Llast] == r.currentTerm && Ltyp[Llast] == ConfigurationEntry && forall i int :: i <= old(Llast) ==> Lterm[i] == old(Lterm[i]) && Ltyp[i] == old(Ltyp[i]) && Ldata[i] == old(Ldata[i])
+
+//@ func Raft.submitReplicatedOperation
+//@   ensures [register] old(r.state) == Leader ==> Llast == old(Llast) + 1 && Lterm[Llast] == r.currentTerm && Ldata[Llast] == operationBytes && Ltyp[Llast] == OperationEntry && result != nil && r.operationManager.pendingReplicated[Llast] == result.responseCh && result.responseCh != nil
+//@   ensures [not-leader] old(r.state) != Leader ==> result != nil && answered[result.responseCh] && Llast == old(Llast) && r.operationManager.pendingReplicated == old(r.operationManager.pendingReplicated)
+//@   ensures [log-frame] forall i int :: i <= old(Llast) ==> Lterm[i] == old(Lterm[i]) && Ltyp[i] == old(Ltyp[i]) && Ldata[i] == old(Ldata[i])
+
+//@ func Raft.submitReadOnlyOperation
+//@   ensures [not-leader] old(r.state) != Leader ==> result != nil && answered[result.responseCh] && Llast == old(Llast)
+//@   at before-assign r.operationManager.pendingReadOnly[operation] assert [readIndex] r.state == Leader && operation != nil && operation.readIndex == r.commitIndex && !operation.quorumVerified && operation.OperationType == readOnlyType && newval == operationFuture.responseCh
+
+//@ func Raft.AddServer
+//@   at call r.appendConfiguration assert [guard] r.state == Leader && committedThisTermSpec(r) && !pendingSpec(r)
+//@   at call r.appendConfiguration assert [delta] (forall k string :: (k in configuration.Members) == (k in r.configuration.Members || k == id)) && (forall k string :: k != id && k in r.configuration.Members ==> configuration.Members[k] == r.configuration.Members[k] && configuration.IsVoter[k] == r.configuration.IsVoter[k]) && configuration.Members[id] == address && configuration.IsVoter[id] == isVoter
+//@   ensures [pending-after] Llast > old(Llast) ==> pendingSpec(r) && r.configuration.Index == Llast
+//@   ensures [answered-or-pending] Llast == old(Llast) ==> result != nil && answered[result.responseCh]
+
+//@ func Raft.RemoveServer
+//@   at call r.appendConfiguration assert [guard] r.state == Leader && committedThisTermSpec(r) && !pendingSpec(r)
+//@   at call r.appendConfiguration assert [delta] (forall k string :: (k in configuration.Members) == (k in r.configuration.Members && k != id)) && (forall k string :: k != id && k in r.configuration.Members ==> configuration.Members[k] == r.configuration.Members[k] && configuration.IsVoter[k] == r.configuration.IsVoter[k])
+//@   ensures [answered-or-pending] Llast == old(Llast) ==> result != nil && answered[result.responseCh]
